@@ -12,6 +12,33 @@ TRUST = ("Trusted: Coq 8.16.1 kernel (full .vo build), extraction with ExtrOcaml
          "working tree on every run. ")
 
 CHECKS = {
+    "C05": dict(
+        text="Proof (partial): invisible pairs have exactly zero stored / full / baked factors; A_i ff_full i j = "
+             "A_j ff_full j i for the area-ratio rule (field); the Stokes double Boole sum is symmetric in the two "
+             "patches and A_i stokes(i->j) = A_j stokes(j->i); stokes >= 0; Boole's rule is exact for polynomials of "
+             "degree <= 5; cut-off inactive => stokes = stokes_nocut; translation invariance. NOT carried: F <= 1, the "
+             "2.5% closure, everything on the Nusselt branch, invariance under general isometries/scaling (the code's "
+             "1e-3 m segment cut-off makes the result orientation/scale dependent: known finding C05/similarity_cutoff).",
+        note=TRUST + "ln/sqrt/abs abstract; Nusselt-branch values enter the model as data; accuracy is C06 (not claimed).",
+        technique="Coq proof over ordered field + extracted-model correspondence", ref="5/C05"),
+    "C09": dict(
+        text="Proof: Green-function argument in any commutative ring: first-leg recursion = last-leg recursion, hence the "
+             "k-leg kernel is symmetric up to area weights given form-factor reciprocity, symmetric delays and the "
+             "RECEIVING wall's reflectance; hence response(A->B) = response(B->A) in every bin, every order. Lifted to "
+             "the executable pipeline model (C09_model): the model's patch histograms are that recursion (pair list = "
+             "matrix form, proved duplicate-free), the baked matrix satisfies reciprocity (area-ratio rule, field), and the "
+             "mono curves coincide when each point's two roles are linked and the delayed energy fits the histogram.",
+        note=TRUST + "Hypotheses of C09_model: one outgoing slot (diffuse), receiver factor = 4 x source share / area, "
+             "ceil bin = floor bin + 1 on every point-patch leg, no receiver-stage wrap (np.roll finding).",
+        technique="Coq proof (operator adjointness by induction) + extracted-model correspondence", ref="5/C09"),
+    "C20": dict(
+        text="Proof: patch energy / direct sound with directivity = omnidirectional value x table[nearest direction in "
+             "the source frame][nearest frequency]; the frame direction is invariant when pose, target and scene are "
+             "rotated together (M^T M = I, det M = 1); an all-ones table or no directivity reproduces the omnidirectional "
+             "e0, histograms and mono curve exactly. Correspondence on synthetic FreeFieldDirectivityTF SOFA files.",
+        note=TRUST + "atan2/asin -> cos/sin round trip is modelled by its trig-free form (checked at 1e-9 by the "
+             "correspondence); KD-tree find_nearest = exhaustive first argmin (near-ties rejected).",
+        technique="Coq proof over commutative ring/field + extracted-model correspondence", ref="5/C20"),
     "C03": dict(
         text="Proof: the executable pipeline model equals, bin for bin and for every outgoing slot and band, the L0 "
              "recursion (one equation per order) fed with visible pairs, centre-distance travel-time bins and the transfer "
